@@ -38,7 +38,7 @@ META = {
     'stubs': ['random.random / random.uniform -> fresh reals in [0,1) / [a,b]', 'max / min inside artap.operators -> ite terms (semantics preserving)',
               'pow with non-integer exponent -> uninterpreted POW + sign/range/monotonicity lemmas (domain configurations); fresh value (box configurations)',
               'round(x) -> nearest integer (superset of half-even)', 'numpy RandomState (LHS) -> symbolic draws and permutations'],
-    'assumptions': ['floats as reals: overflow of ub-lb, NaN inputs outside', 'integer / boolean parameters outside',
+    'assumptions': ['boxes lb <= ub including fixed parameters (lb == ub)', 'floats as reals: overflow of ub-lb, NaN inputs outside', 'integer / boolean parameters outside',
                     'SimpleMutator / SimpleCrossover / FireflyStep are not named by the property (SimpleMutator has its clip commented out)',
                     'whole-run clause by composition (assume-guarantee), not by symbolic execution of whole runs'],
 }
@@ -73,7 +73,7 @@ def sbx(args):
     O = _install()
 
     def body(ctx):
-        params, box = doecommon.sym_parameters(ctx, dim)
+        params, box = doecommon.sym_parameters(ctx, dim, strict=False)
         prob = ctx.real('prob', 0, 1)
         eta = ctx.real('eta', 0, None)
         op = O.SimulatedBinaryCrossover(params, 0.5, 15)
@@ -92,7 +92,7 @@ def pm(args):
     O = _install()
 
     def body(ctx):
-        params, box = doecommon.sym_parameters(ctx, dim)
+        params, box = doecommon.sym_parameters(ctx, dim, strict=False)
         op = O.PmMutator(params, 0.5, 20)
         op.probability, op.distribution_index = ctx.real('prob', 0, 1), ctx.real('eta', 0, None)
         p = _parent(ctx, 'p', box)
@@ -107,7 +107,7 @@ def uniform_mut(args):
     O = _install()
 
     def body(ctx):
-        params, box = doecommon.sym_parameters(ctx, dim)
+        params, box = doecommon.sym_parameters(ctx, dim, strict=False)
         op = O.UniformMutator(params, 0.5, 0.5)
         op.probability, op.perturbation = ctx.real('prob', 0, 1), ctx.real('pert')
         p = _parent(ctx, 'p', box)
@@ -122,7 +122,7 @@ def nonuniform_mut(args):
     O = _install()
 
     def body(ctx):
-        params, box = doecommon.sym_parameters(ctx, dim)
+        params, box = doecommon.sym_parameters(ctx, dim, strict=False)
         op = O.NonUniformMutation(params, 0.5, maxit)
         op.probability = ctx.real('prob', 0, 1)
         op.perturbation = ctx.real('pert', 0, None)
@@ -160,7 +160,7 @@ def turbulence(args):
     def body(ctx):
         from artap.individual import Individual
         Individual.counter = 0
-        params, box = doecommon.sym_parameters(ctx, 1)
+        params, box = doecommon.sym_parameters(ctx, 1, strict=False)
         prob.parameters[0]['bounds'] = params[0]['bounds']
         if kind == 'omopso':
             alg.non_uniform_mutator = O.NonUniformMutation(prob.parameters, ctx.real('prob', 0, 1), 10)
@@ -182,7 +182,7 @@ def gen_number(args):
 
     def body(ctx):
         lo, hi = ctx.real('lb'), ctx.real('ub')
-        ctx.assume(lo < hi)
+        ctx.assume(lo <= hi)
         if precision is None:
             r = U.VectorAndNumbers.gen_number(bounds=[lo, hi])
             p = 1e-12
@@ -200,7 +200,7 @@ def gen_vector(args):
     import artap.operators as O
 
     def body(ctx):
-        params, box = doecommon.sym_parameters(ctx, n)
+        params, box = doecommon.sym_parameters(ctx, n, strict=False)
         if args.get('precision'):
             params[0]['precision'] = args['precision']      # only the FIRST parameter declares a precision
         g = O.RandomGenerator(params)
@@ -224,7 +224,7 @@ def doe_mapping(args):
     import artap.operators as O
 
     def body(ctx):
-        params, box = doecommon.sym_parameters(ctx, n)
+        params, box = doecommon.sym_parameters(ctx, n, strict=False)
         if kind == 'fullfact':
             g = O.FullFactorGenerator(params)
             g.init(args.get('center', False))
